@@ -158,6 +158,8 @@ structure St where
   /-- publishers for which the known duplicate / stale entries are in the list -/
   tainted : List String := []
   synced  : Bool := true
+  /-- `init` seen: the model has adopted the state the case starts from -/
+  started : Bool := false
 
 /-- All scopes the model or the implementation knows. -/
 def allScopes (m : Store) (raw : AList CaStatus) : List String :=
@@ -518,8 +520,9 @@ def step (st : St) (op : List String) (obs : Json) : St × String :=
   | ["init"] =>
     let disk : AList DiskCa := (jfields (jget obs "raw")).map fun (k, v) => (k, pDisk v)
     let m : Store := Store.restart { disk := disk }
-    ({ st with model := m, prev := obs }, s!"ok init:scopes{min disk.length 3}")
+    ({ st with model := m, prev := obs, started := true }, s!"ok init:scopes{min disk.length 3}")
   | _ =>
+    if !st.started then (st, "bad-op missing-init " ++ opS) else
     let raw := pViews (jget obs "raw")
     let stv := pViews (jget obs "st")
     -- events
